@@ -11,12 +11,13 @@ from harness.common import REPO, Ck, coq_list, parse_coq_N_list
 from translate import c11_formats, c11_glue
 
 MANIFEST = dict(
-    technique='Rocq proof (struct pack/unpack model for all formats, RLE codec, index builders with key functions, texture string table, '
-              'entity lump text, visibility row size, bit fields, flag splits, main overlay block) + generic theorems over '
-              'format/layout/guard/dispatch/field-order/template/dedup-key/helper-property tables regenerated from bsp.py, binformat.py and '
-              'vmf.py by fail-closed ast translators that read a normalised tree + vm_compute correspondence (struct, RLE, row size, '
-              'find_or_insert/extend with and without key, texture table, entity lump; byte-exact) + field-by-field save/re-read oracle',
-    text='Theorems in Props/C11.v (39): for every struct format of the modelled language and every fitting record unpack(pack v) = v; '
+    technique='Rocq proof (struct pack/unpack model for all formats, RLE codec, index builders with key functions, work-list loops over '
+              'index tables, texture string table, entity lump text, visibility row size, bit fields, flag splits, main overlay block, '
+              'PHYSCOLLIDE blocks, DeferredWrites) + generic theorems over format/layout/guard/dispatch/field-order/template/dedup-key/'
+              'helper-property/loop-shape/rebuild-order/physics-header tables regenerated from bsp.py, binformat.py and vmf.py by fail-closed '
+              'ast translators + vm_compute correspondence (struct, RLE, row size, find_or_insert/extend with and without key, texture table, '
+              'entity lump, PHYSCOLLIDE, DeferredWrites; byte-exact) + field-by-field save/re-read oracle',
+    text='Theorems in Props/C11.v (55): for every struct format of the modelled language and every fitting record unpack(pack v) = v; '
          'pack succeeds only if every integer is inside its field (out-of-range raises); Ns fields pad and silently truncate, '
          'so a guarded site never truncates; run-length decoding inverts encoding for every byte list, alone and at its offset '
          'inside the lump; an integer expression that passes the decision procedure rowsize_ok equals ceil(n/8) for EVERY cluster count and '
@@ -26,30 +27,53 @@ MANIFEST = dict(
          'fields are escaped (raw keys are refuted); find_or_insert / find_or_extend return indexes that denote the requested items; a '
          'de-duplicating table with ANY key function answers every request with the record of the requested object as soon as the key '
          'determines the record (key_determines; a key by material name is refuted), and the index packed into the referring record leads '
-         'the reader back to that record (reference_roundtrip); hi << k | lo is inverted by shift and mask; a value split over several fields '
+         'the reader back to that record (reference_roundtrip); the loop of a writer over the LIVE list its own find_or_insert appends to '
+         '(_lmp_write_nodes) is a work-list closure: when it ends there is exactly one record per table entry at its own index, no object '
+         'has two indexes, the listed roots keep their positions, every stored index resolves to the object referred to, the table holds '
+         'exactly the objects reachable from the roots, and it ends after at most |reachable|+1 steps (a loop over a snapshot of the list '
+         'is refuted: an index is handed out, the record is never written); every loop shape that passes wl_entry_ok has that closure '
+         'property; LUMP_REBUILD_ORDER runs every writer that appends to another view before the writer of that view, and then the whole save() '
+         'pass - one work-list writer per lump over one table per lump - leaves every list entry of every lump with exactly one record at its '
+         'own index and every stored index resolving in the FINAL list of its target lump (save_cross_reference_closure; a reference to a '
+         'lump rebuilt earlier is refuted); hi << k | lo is '
+         'inverted by shift and mask; a value split over several fields '
          'by helper properties is put together again when the parts tile the bits and the last is unmasked (a masked high part is refuted); '
          'a boolean stored as one of two codes comes back iff the reader compares with the true-code; the main overlay block (3 values, face '
          'array with padding, 22 floats) written by four pack calls is byte for byte the block the reader unpacks and every position is read '
-         'back into the attribute it came from, for every face count (overlay_block_roundtrip; pad bytes = zero integers; pack_app). '
+         'back into the attribute it came from, for every face count; every list of physics blocks the PHYSCOLLIDE format can hold (model '
+         'index, solids as length + bytes, keyvalues text + NUL, sentinel header) is read back unchanged when both sides use one order of '
+         'the four header values, one sentinel and one order of the sections (a swapped header is refuted); a file written with '
+         'DeferredWrites (slots reserved, set later, filled in at the end) is the file of a two-pass writer in which every slot holds the '
+         'value set last for its key (a slot never set is an error); the sprite dictionary entry of a sprite / shape detail prop is read back slot by slot when both sides name one attribute component per slot (sprite_dict_roundtrip). '
          'Generic over the tables generated from today\'s source: every reader/writer site '
          'pair of every lump uses one layout in each of the five layout tables; for 23 record variants (planes, vertexes, primitives, faces, '
          'brush sides, brushes, leaf water data, leafs, nodes, texdata, texinfo, brush models, cubemaps, overlay fades/system levels, the three '
          'detail-prop classes; VitaminSource and v19 variants) the FULL field order of reader and writer agree label by label and the format has exactly that many '
          'values (record_roundtrip); every static-prop version has equal field ladders of the declared size; the overlay face block has the '
          'reader\'s size for every face count; each detail-prop class is written by its own branch; all 28 index tables of the writers have a '
-         'key that determines the record. The premises are kernel-checked for '
-         'today\'s source on every run (215 obligations). Models are compared byte-exactly with CPython struct, runlength_encode/decode, '
-         'binformat.find_or_* (with key functions), _lmp_write/read_textures, write_ent_data/_lmp_read_ents; generated lump contents (incl. '
-         'near-duplicate objects: equal in part or all of their attributes) are assigned to all 20 views '
-         'of a base BSP in 7 layouts x 13 static-prop versions, saved, re-read and compared field by field; values that do not fit must raise.',
-    note='Partial: the deferred offset table of the visibility header, physics blocks and their keyvalues text, the sprite dictionary record of '
-         'detail props, instance-name prefixes of outputs and mapversion are searched, not modelled. Field orders are generated by a name-based '
+         'key that determines the record; all 8 loops over local index tables reach every entry; the rebuild order is topological for the 28 '
+         'append edges. The premises are kernel-checked for '
+         'today\'s source on every run (249 obligations). Models are compared byte-exactly with CPython struct, runlength_encode/decode, '
+         'binformat.find_or_* (with key functions), binformat.DeferredWrites, _lmp_write/read_textures, write_ent_data/_lmp_read_ents, the '
+         'PHYSCOLLIDE lump of _lmp_write/read_bmodels; generated lump contents (incl. '
+         'near-duplicate objects, and objects reachable ONLY through references of other objects - grafted sub-trees of nodes, leafs, faces, '
+         'original faces, brushes, sides, planes, texinfo, texdata at depth >= 2) are assigned to all 20 views '
+         'of a base BSP in 7 layouts x 13 static-prop versions, saved, re-read and compared field by field; in a fifth of the worlds the '
+         're-read objects are then changed in place and the same BSP object is saved and re-read again; values that do not fit must raise; '
+         'every call into the implementation runs under a time limit (a hang is reported as a failing input).',
+    note='Partial: instance-name prefixes of outputs and mapversion are searched, not modelled; the '
+         'keyvalues text inside a physics block is opaque (its syntax is C01\'s). The work-list theorem is about the loop shape read from the '
+         'source (which list is iterated, live or snapshot, where the finder closure is used); that the body turns EVERY reference of the '
+         'record into an index through the finder is covered by record_fields_agree:nodes. Field orders are generated by a name-based '
          'data-flow analysis of each reader/writer (translate/c11_records.py, c11_overlayrec.py) whose '
          'reader/writer site pairing and branch flags (is_vitamin, has_ambient) are hand-written tables (site ordinals count sites of the '
          'normalised tree in tree order). translate/c11_norm.py (struct.Struct constants, single-use pure locals, table-entry aliases, '
-         'module constants, early continue, negated if/else) is trusted: it moves a pure expression past pure assignments to other names only. '
+         'module constants, early continue, negated if/else; `list(E)` around a loop iterable is dropped only when the function never grows E) '
+         'is trusted: it moves a pure expression past pure assignments to other names only. '
          'Hard-wired besides STREAMS/RECORDS: ADMITTED (texture names distinct after casefold), REDUNDANT (Overlay.face_count = len(faces)), '
-         'the lists of pure functions. f fields are modelled as 32-bit '
+         'the lists of pure functions. Hand models tied by correspondence only: Bin/BspDeferred.v (DeferredWrites; only defer(write=True) is '
+         'modelled, the form bsp.py uses - checked by an obligation for the visibility writer), Fmt/BspPhys.v reader/writer loops (their '
+         'configuration is read from the source). f fields are modelled as 32-bit '
          'patterns (CPython float<->float32 conversion trusted). math.ceil(n / 8) is modelled as exact rational ceiling (float division by 8 is '
          'exact below 2^53). The quoted-string scanner used by the entity lump model is Fmt/VmfText.hs (hand model of Tokenizer string '
          'scanning owned by C06), tied here by comparing ent_read with _lmp_read_ents. Entity-lump well-formedness: no ESC in values, no plain '
@@ -60,7 +84,7 @@ IMPORTS = ['Coq.Lists.List', 'Coq.Strings.String', 'Coq.NArith.NArith', 'Coq.ZAr
            'SV.Bin.LE', 'SV.Bin.Struct', 'SV.Bin.RLE', 'SV.Bin.FindInsert', 'SV.Fmt.BspFormatsSpec', 'SV.Fmt.BspDedup', 'SV.Gen.BspFormats_gen']
 IMPORTS_GLUE = ['Coq.Lists.List', 'Coq.Strings.String', 'Coq.NArith.NArith', 'Coq.ZArith.ZArith', 'Coq.Bool.Bool',
                 'SV.Bin.LE', 'SV.Bin.Struct', 'SV.Bin.RLE', 'SV.Fmt.BspFormatsSpec', 'SV.Fmt.BspVisRow', 'SV.Fmt.BspTexStrings',
-                'SV.Fmt.BspRecords', 'SV.Fmt.VmfText', 'SV.Fmt.BspEntLump', 'SV.Fmt.BspDedup', 'SV.Fmt.BspFlagSplit', 'SV.Fmt.BspOverlayRec', 'SV.Gen.BspFormats_gen', 'SV.Gen.BspGlue_gen']
+                'SV.Fmt.BspRecords', 'SV.Fmt.VmfText', 'SV.Fmt.BspEntLump', 'SV.Fmt.BspDedup', 'SV.Fmt.BspFlagSplit', 'SV.Fmt.BspOverlayRec', 'SV.Fmt.BspWorklist', 'SV.Fmt.BspPhys', 'SV.Bin.BspDeferred', 'SV.Fmt.BspSpriteDict', 'SV.Gen.BspFormats_gen', 'SV.Gen.BspGlue_gen']
 PRE = '''Import ListNotations. Open Scope string_scope. Open Scope list_scope.
 Fixpoint nl_eqb (a b : list N) : bool := match a, b with [], [] => true | x :: a', y :: b' => N.eqb x y && nl_eqb a' b' | _, _ => false end.
 Fixpoint natl_eqb (a b : list nat) : bool := match a, b with [], [] => true | x :: a', y :: b' => Nat.eqb x y && natl_eqb a' b' | _, _ => false end.
@@ -222,8 +246,8 @@ def corr_struct(ck: Ck, side: dict) -> None:
             unpack_cases.append(f'({_cs(fmt)}, {nlist(data)}, {coq_list(py_to_coq_value(v, c) for v, c in zip(got, fields))})')
             ck.count('struct_unpack_cases')
     ck.sample({'struct_pack_case(format, values, CPython bytes or None=error)': pack_cases[len(src_fmts) * 2 + 1][:400]})
-    bad_p = _eval_cases(ck, 'chk_pack', 'string * list value * option (list N)', pack_cases, 'struct_pack')
-    bad_u = _eval_cases(ck, 'chk_unpack', 'string * list N * list value', unpack_cases, 'struct_unpack')
+    bad_p, bad_u = yield [('chk_pack', 'string * list value * option (list N)', pack_cases, 'struct_pack', None, None),
+                          ('chk_unpack', 'string * list N * list value', unpack_cases, 'struct_unpack', None, None)]
     if bad_p is None or bad_u is None:
         ck.obligation('correspondence:struct', False, 'model could not be evaluated')
         ck.tie_broken.append('correspondence struct: model evaluation failed')
@@ -246,12 +270,100 @@ def _eval_cases(ck: Ck, fn: str, ty: str, cases: list[str], name: str, imports: 
     bad: list[int] = []
     for lo in range(0, len(cases), 400):
         part = cases[lo:lo + 400]
-        vals = ck.coq_eval(imports or IMPORTS, [f'bad_idx (fun c : {ty} => {fn} c) 0 {coq_list(part)}'], name=name,
+        vals = ck.coq_eval(imports or IMPORTS, [f'bad_idx (fun c : {ty} => {fn} c) 0 {coq_list(part)}'], name=f'{name}{lo}',
                            preamble=PRE if pre is None else pre)
         if vals is None:
             return None
         bad += [lo + i for i in parse_coq_N_list(vals[0])]
     return bad
+
+
+def start_correspondences(ck: Ck, gens: list) -> tuple[Any, list]:
+    """Each correspondence is a generator: it produces its cases on the implementation (main thread, in the fixed order that keeps
+    ck.rng deterministic), yields the evaluation requests for the model, and is resumed (finish_correspondences) with the lists of
+    disagreeing cases.  The coqc runs of all correspondences overlap with each other (at most 4 at a time) and with whatever the main
+    thread does until finish_correspondences is called (the search on the implementation)."""
+    from concurrent.futures import ThreadPoolExecutor
+    pending = []
+    ex = ThreadPoolExecutor(max_workers=4)
+    for g in gens:
+        name = getattr(g, '__name__', 'correspondence')
+        try:
+            # the cases are produced by calling the implementation: a fault that makes it loop (a decoder that does not advance, a
+            # table search that never ends) must end as a failing input, not as a hung check.  Producing the cases of one
+            # correspondence takes 1-8 s (quick) / up to 2 min (thorough) on a loaded machine.
+            with U.time_limit(ck.budget(150, 3000)):
+                reqs = next(g)
+        except StopIteration:
+            continue
+        except Exception as e:      # noqa: BLE001
+            # an unexpected exception raised INSIDE the implementation while the cases are produced is a finding with a replay (the
+            # call stack), not an internal error of the check; an exception raised by the check's own code is re-raised
+            tb = __import__('traceback').extract_tb(e.__traceback__)
+            if not tb or '/srctools/' not in tb[-1].filename:
+                ex.shutdown(wait=False, cancel_futures=True)
+                raise
+            ck.obligation('correspondence:' + name.replace('corr_', ''), False, f'the implementation raised {type(e).__name__} while the cases were produced')
+            ck.violation('crash:' + name, f'{type(e).__name__}: {e} raised inside the implementation on an input generated by {name}'[:300],
+                         {'stage': name, 'error': f'{type(e).__name__}: {e}'[:300], 'how': f'checks/c11.py {name}: run the check',
+                          'stack': [f'{f.filename.split("/")[-1]}:{f.lineno} {f.name}' for f in tb][-6:]})
+            ck.explain('correspondence:' + name.replace('corr_', ''))
+            continue
+        except U.ImplTimeout as e:
+            ck.obligation('correspondence:' + name.replace('corr_', ''), False, f'the implementation did not return while the cases were produced: {e}')
+            ck.violation('hang:' + name, f'a call into the implementation made by {name} did not return ({e}); the call stack at the time is in the replay',
+                         {'stage': name, 'how': f'checks/c11.py {name}: run the check; the stage calls the implementation on generated inputs',
+                          'stack': [f'{f.filename.split("/")[-1]}:{f.lineno} {f.name}' for f in __import__('traceback').extract_tb(e.__traceback__)][-6:]})
+            ck.explain('correspondence:' + name.replace('corr_', ''))
+            continue
+        pending.append((g, [ex.submit(_eval_cases, ck, fn, ty, cases, name, imp, pre) for fn, ty, cases, name, imp, pre in reqs]))
+    return ex, pending
+
+
+def finish_correspondences(ex: Any, pending: list) -> None:
+    try:
+        for g, futs in pending:
+            try:
+                g.send([f.result() for f in futs])
+            except StopIteration:
+                pass
+    finally:
+        ex.shutdown(wait=True)
+
+
+def theorems_parallel(ck: Ck, props_file: str, chunks: int = 4) -> None:
+    """ck.theorems (Print Assumptions of every theorem of the Props file), cheaper: every single query walks the whole dependency
+    closure again (0.4-1 s per theorem, 25 s of CPU for 55 theorems).  First ONE query for the tuple of all theorems: its assumptions are
+    the union of theirs, so "Closed under the global context" for the tuple means closed for each.  Only if that is not the answer the
+    theorems are queried one by one (split over several coqc processes)."""
+    import re
+    from concurrent.futures import ThreadPoolExecutor
+
+    from harness.common import ROCQ, _split_assumptions
+    names = re.findall(r"^\s*(?:Theorem|Lemma|Corollary)\s+([A-Za-z0-9_']+)", (ROCQ / props_file).read_text(), re.M)
+    mod = 'SV.' + props_file[:-2].replace('/', '.')
+    rc, out = ck.coq_scratch(f'Require Import {mod}.\nDefinition all_theorems_of_the_file := ({", ".join(names)}).\n'
+                             'Print Assumptions all_theorems_of_the_file.\n', 'assumptions_all')
+    if rc == 0 and _split_assumptions(out, 1)[0] == [] and 'Closed under the global context' in out:
+        for n in names:
+            ck.axioms[n] = []
+            ck.obligation(f'theorem:{n}', True, 'Qed; axioms: none (closed under the global context; one Print Assumptions of the tuple of all '
+                                                f'{len(names)} theorems of {props_file})')
+        return
+    parts = [names[i::chunks] for i in range(chunks) if names[i::chunks]]
+
+    def one(k: int) -> tuple[int, str]:
+        return ck.coq_scratch(f'Require Import {mod}.\n' + ''.join(f'Print Assumptions {n}.\n' for n in parts[k]), f'assumptions{k}')
+    with ThreadPoolExecutor(max_workers=chunks) as ex:
+        res = list(ex.map(one, range(len(parts))))
+    for part, (rc, out) in zip(parts, res):
+        if rc != 0:
+            ck.obligation(f'assumptions:{props_file}', False, out[-2000:])
+            ck.tie_broken.append(f'Print Assumptions failed for {props_file}')
+            continue
+        for n, b in zip(part, _split_assumptions(out, len(part))):
+            ck.axioms[n] = b
+            ck.obligation(f'theorem:{n}', True, 'Qed; axioms: ' + ('none (closed under the global context)' if not b else ', '.join(b)))
 
 
 # ------------------------------------------------------------------------------------------------ RLE correspondence
@@ -274,7 +386,8 @@ def corr_rle(ck: Ck) -> None:
     corpus = [b'', b'\0', b'\1', bytes(255), bytes(256), bytes(510), bytes(511) + b'\7', b'\1\0\0\2' + bytes(300)]
     for i in range(n):
         d = corpus[i] if i < len(corpus) else gen_row(rng)
-        e = bytes(runlength_encode(d))
+        with U.time_limit(U.IMPL_TIME_LIMIT):
+            e = bytes(runlength_encode(d))
         enc.append(f'({nlist(d)}, {nlist(e)})')
         ck.count('rle_encode_cases')
         ck.hist('rle_row_len', min(len(d) // 100 * 100, 2000))
@@ -297,7 +410,8 @@ def corr_rle(ck: Ck) -> None:
             mc = rng.choice([-1, rng.randint(0, 64)])
         mc = max(mc, -1)
         try:
-            r: bytes | None = bytes(runlength_decode(stream, len(pre), mc))
+            with U.time_limit(U.IMPL_TIME_LIMIT):
+                r: bytes | None = bytes(runlength_decode(stream, len(pre), mc))
         except IndexError:
             r = None
         want_s = 'None' if mc == -1 else f'Some {(mc + 7) // 8}%nat'
@@ -305,8 +419,8 @@ def corr_rle(ck: Ck) -> None:
         ck.count('rle_decode_cases')
         ck.hist('rle_decode_outcome', 'IndexError' if r is None else 'bytes')
     ck.sample({'rle_encode_case(row, implementation bytes)': enc[7][:300]})
-    be = _eval_cases(ck, 'chk_enc', 'list N * list N', enc, 'rle_enc')
-    bd = _eval_cases(ck, 'chk_dec', '(option nat * nat * list N) * option (list N)', dec, 'rle_dec')
+    be, bd = yield [('chk_enc', 'list N * list N', enc, 'rle_enc', None, None),
+                    ('chk_dec', '(option nat * nat * list N) * option (list N)', dec, 'rle_dec', None, None)]
     if be is None or bd is None:
         ck.obligation('correspondence:rle', False, 'model could not be evaluated')
         ck.tie_broken.append('correspondence RLE: model evaluation failed')
@@ -340,21 +454,23 @@ def corr_rowsize(ck: Ck) -> None:
     probe = bytes([1]) * (hi // 8 + 40)
     cases = []
     for n in range(0, hi):
-        got = len(runlength_decode(probe, 0, n))
+        with U.time_limit(U.IMPL_TIME_LIMIT):
+            got = len(runlength_decode(probe, 0, n))
         cases.append(f'(({n})%Z, ({got})%Z)')
         ck.count('row_size_cases')
         # the property itself on the implementation: a row of ceil(n/8) bytes followed by another row
         w = (n + 7) // 8
         row = bytes((37 * n + 11 * i) % 251 + 1 if (i + n) % 3 else 0 for i in range(w))
         nxt = bytes((91 * n + 7 * i) % 255 + 1 for i in range(max(w, 1)))
-        data = bytes(runlength_encode(row)) + bytes(runlength_encode(nxt))
-        back = bytes(runlength_decode(data, 0, n))
+        with U.time_limit(U.IMPL_TIME_LIMIT):
+            data = bytes(runlength_encode(row)) + bytes(runlength_encode(nxt))
+            back = bytes(runlength_decode(data, 0, n))
         if back != row and n > 0:      # a lump with no clusters has no rows
             ck.violation('visibility:row-size:' + ('multiple-of-8' if n % 8 == 0 else f'count-mod-8={n % 8}'),
                          f'a visibility row for {n} clusters ({w} bytes) followed by the next row is read back as {len(back)} bytes',
                          {'clusters': n, 'row': list(row), 'next_row': list(nxt), 'read_back': list(back),
                           'how': 'runlength_decode(runlength_encode(row) + runlength_encode(next_row), 0, clusters)'})
-    bad = _eval_cases(ck, 'chk_row', 'Z * Z', cases, 'rowsize', IMPORTS_GLUE, PRE_GLUE)
+    [bad] = yield [('chk_row', 'Z * Z', cases, 'rowsize', IMPORTS_GLUE, PRE_GLUE)]
     if bad is None:
         ck.obligation('correspondence:vis_row_size', False, 'model could not be evaluated')
         ck.tie_broken.append('correspondence row size: model evaluation failed')
@@ -413,7 +529,7 @@ def corr_tex(ck: Ck, base: str) -> None:
         if back is not None:
             cases.append(f'({coq_list(nlist(n) for n in names)}, ({nlist(data)}, {natlist(offs)}), {rd})')
     ck.sample({'texture_table_case(names, (data block, offsets), names read back)': cases[30][:300]})
-    bad = _eval_cases(ck, 'chk_tex', 'list (list N) * (list N * list nat) * list (option (list N))', cases, 'tex', IMPORTS_GLUE, PRE_GLUE)
+    [bad] = yield [('chk_tex', 'list (list N) * (list N * list nat) * list (option (list N))', cases, 'tex', IMPORTS_GLUE, PRE_GLUE)]
     if bad is None:
         ck.obligation('correspondence:texdata_strings', False, 'model could not be evaluated')
         ck.tie_broken.append('correspondence texture string table: model evaluation failed')
@@ -570,9 +686,9 @@ def corr_ent(ck: Ck) -> None:
             ck.count('ent_lump_damaged_cases')
             ck.hist('ent_lump_damaged_outcome', 'accepted' if ok else 'rejected')
     ck.sample({'ent_lump_case(comma_sep, entities as items, bytes written by write_ent_data)': wr[3][:400]})
-    b1 = _eval_cases(ck, 'chk_ent_write', 'bool * list (list item) * list N', wr, 'ent_w', IMPORTS_GLUE, PRE_ENT)
-    b2_ = _eval_cases(ck, 'chk_ent_read', 'list N * option (list (list item))', rd, 'ent_r', IMPORTS_GLUE, PRE_ENT)
-    b3 = _eval_cases(ck, 'chk_ent_ok', 'list N * bool', okc, 'ent_d', IMPORTS_GLUE, PRE_ENT)
+    b1, b2_, b3 = yield [('chk_ent_write', 'bool * list (list item) * list N', wr, 'ent_w', IMPORTS_GLUE, PRE_ENT),
+                         ('chk_ent_read', 'list N * option (list (list item))', rd, 'ent_r', IMPORTS_GLUE, PRE_ENT),
+                         ('chk_ent_ok', 'list N * bool', okc, 'ent_d', IMPORTS_GLUE, PRE_ENT)]
     if b1 is None or b2_ is None or b3 is None:
         ck.obligation('correspondence:ent_lump', False, 'model could not be evaluated')
         ck.tie_broken.append('correspondence entity lump: model evaluation failed')
@@ -613,6 +729,181 @@ def _bare_words(data: bytes) -> bool:
             return True
         i += 1
     return False
+
+
+# ------------------------------------------------------------------------------------------------ DeferredWrites correspondence
+PRE_DW = PRE_GLUE + '''
+Definition chk_dw (c : list dop * option (list N)) : bool := onl_eqb (dwhole (fst c)) (snd c).
+'''
+
+
+def corr_deferred(ck: Ck):
+    """Bin/BspDeferred.v (dwhole) vs binformat.DeferredWrites over a BytesIO: random sequences of write / defer(write=True) /
+    set_data calls followed by write(); the resulting file byte for byte, or the error (slot never set, key never deferred)."""
+    from io import BytesIO
+
+    from srctools.binformat import DeferredWrites
+    rng = ck.rng
+    cases = []
+    for i in range(ck.budget(150, 2500)):
+        buf = BytesIO()
+        dw = DeferredWrites(buf)
+        ops = []
+        fmts: dict[int, int] = {}
+        ok = True
+        shape = rng.random()
+        for _ in range(rng.choice([1, 3, 6, 10])):
+            k = rng.random()
+            key = rng.randint(0, 3)
+            try:
+                if k < 0.35:
+                    bs = bytes(rng.randint(0, 255) for _ in range(rng.choice([0, 1, 2, 5])))
+                    buf.write(bs)
+                    ops.append(f'DWrite {nlist(bs)}')
+                elif k < 0.65:
+                    if key in fmts and shape < 0.8:
+                        key = max(fmts) + 1         # mostly fresh keys; sometimes a key is deferred twice
+                    n = rng.choice([1, 2])
+                    dw.defer(key, '<' + 'i' * n, True)
+                    fmts[key] = n
+                    ops.append(f'DDefer {key} {4 * n}')
+                else:
+                    if fmts and rng.random() < 0.9:
+                        key = rng.choice(sorted(fmts))
+                    vals = [rng.randint(-5, 1 << 20) for _ in range(fmts.get(key, 1))]
+                    ops.append(f'DSet {key} {nlist(struct.pack("<" + "i" * len(vals), *vals))}')
+                    dw.set_data(key, *vals)
+            except KeyError:
+                ok = False
+                break
+        if ok and shape > 0.25:
+            # finish properly: every slot gets a value
+            for key in sorted(fmts):
+                if rng.random() < 0.85:
+                    vals = [rng.randint(0, 1 << 16) for _ in range(fmts[key])]
+                    ops.append(f'DSet {key} {nlist(struct.pack("<" + "i" * len(vals), *vals))}')
+                    dw.set_data(key, *vals)
+        out: bytes | None = None
+        if ok:
+            try:
+                with U.time_limit(U.IMPL_TIME_LIMIT):
+                    dw.write()
+                out = buf.getvalue()
+            except ValueError:
+                out = None
+        cases.append(f'({coq_list(ops)}, {"None" if out is None else "Some " + nlist(out)})')
+        ck.count('deferred_writes_cases')
+        ck.hist('deferred_writes_outcome', 'file' if out is not None else 'error')
+        if out is not None and len(fmts) >= 2:
+            ck.seen(('dw', tuple(ops)))
+    ck.sample({'deferred_writes_case(calls, resulting file or None=error)': cases[min(5, len(cases) - 1)][:400]})
+    [bad] = yield [('chk_dw', 'list dop * option (list N)', cases, 'dw', IMPORTS_GLUE, PRE_DW)]
+    if bad is None:
+        ck.obligation('correspondence:deferred_writes', False, 'model could not be evaluated')
+        ck.tie_broken.append('correspondence DeferredWrites: model evaluation failed')
+        return
+    ck.obligation('correspondence:deferred_writes', not bad,
+                  f'{len(cases)} call sequences (write / defer(write=True) / set_data, then write(); keys deferred twice, slots never set, '
+                  f'keys never deferred included), Bin/BspDeferred.v dwhole vs binformat.DeferredWrites over BytesIO, byte for byte: {len(bad)} disagreements')
+    if bad:
+        ck.tie_broken.append('correspondence DeferredWrites model vs binformat.py')
+        ck.extra['deferred_disagreement'] = [cases[i][:500] for i in bad[:3]]
+
+
+# ------------------------------------------------------------------------------------------------ PHYSCOLLIDE correspondence
+PRE_PHYS = PRE_GLUE + '''
+Fixpoint nls_eqb (a b : list (list N)) : bool := match a, b with [], [] => true | x :: a', y :: b' => nl_eqb x y && nls_eqb a' b' | _, _ => false end.
+Definition pb_eqb (a b : pblock) : bool := Z.eqb (pb_index a) (pb_index b) && nls_eqb (pb_solids a) (pb_solids b) && nl_eqb (pb_kvs a) (pb_kvs b).
+Fixpoint pbs_eqb (a b : list pblock) : bool := match a, b with [], [] => true | x :: a', y :: b' => pb_eqb x y && pbs_eqb a' b' | _, _ => false end.
+Definition mk (x : Z * list (list N) * list N) : pblock := let '(i, s, k) := x in {| pb_index := i; pb_solids := s; pb_kvs := k |}.
+Definition chk_phys_w (c : list (Z * list (list N) * list N) * list N) : bool :=
+  let '(wo, _, ws, _, _, _, _, _) := phys_config in onl_eqb (write_blocks wo ws (map mk (fst c))) (Some (snd c)).
+Definition chk_phys_r (c : list N * list (Z * list (list N) * list N)) : bool :=
+  let '(_, ro, _, rs, _, _, _, strip) := phys_config in
+  match read_blocks (S (S (List.length (snd c)))) ro rs strip (fst c) with Some bl => pbs_eqb bl (map mk (snd c)) | None => false end.
+'''
+
+
+def corr_phys(ck: Ck, base: str):
+    """Fmt/BspPhys.v (configured with the header order / sentinel / section order read from the source) vs the PHYSCOLLIDE lump
+    that _lmp_write_bmodels produces (byte for byte) and what _lmp_read_bmodels reads from it (model index, solids, text)."""
+    from weakref import WeakKeyDictionary
+
+    import srctools.bsp as B
+    from srctools.keyvalues import Keyvalues
+    from srctools.math import Vec
+    from srctools.vmf import VMF, Entity
+    rng = ck.rng
+    wc, rc = [], []
+    b = B.BSP(base)
+    node = b.nodes[0]
+    for i in range(ck.budget(40, 600)):
+        vmf = VMF()
+        vmf.spawn['classname'] = 'worldspawn'
+        ents = [vmf.spawn]
+        for _ in range(rng.choice([0, 1, 2, 4])):
+            e = Entity(vmf, {'classname': 'func_brush'})
+            vmf.add_ent(e)
+            ents.append(e)
+        bm: Any = WeakKeyDictionary()
+        want = []
+        for k, e in enumerate(ents):
+            m = B.BModel(Vec(), Vec(), Vec(), node, [])
+            kind = rng.random()
+            if kind < 0.7:
+                m._phys_solids = [bytes(rng.randint(0, 255) for _ in range(rng.choice([0, 1, 4, 13, 300]))) for _ in range(rng.choice([1, 1, 2, 3]))]
+                if rng.random() < 0.8:
+                    m.phys_keyvalues = Keyvalues.root(Keyvalues('solid', [Keyvalues('index', str(rng.randint(0, 9))), Keyvalues('mass', '1.5')]),
+                                                      *([Keyvalues('materialtable', [])] if rng.random() < 0.5 else []))
+            elif kind < 0.8:
+                m.phys_keyvalues = Keyvalues.root(Keyvalues('staticsolid', [Keyvalues('index', '0')]))       # text without solids
+            bm[e] = m
+            if m._phys_solids or m.phys_keyvalues is not None:
+                text = m.phys_keyvalues.serialise().encode('ascii') if m.phys_keyvalues is not None else b''
+                want.append((k, [bytes(x) for x in m._phys_solids], text))
+        b.ents = vmf
+        with U.time_limit(U.IMPL_TIME_LIMIT):
+            chunks = b''.join(b._lmp_write_bmodels(bm))
+        data = b.lumps[B.BSP_LUMPS.PHYSCOLLIDE].data
+
+        def lit(blocks: list) -> str:
+            return coq_list(f'(({k})%Z, {coq_list(nlist(x) for x in ss)}, {nlist(t)})' for k, ss, t in blocks)
+        wc.append(f'({lit(want)}, {nlist(data)})')
+        ck.count('physcollide_write_cases')
+        ck.hist('physcollide_blocks', len(want))
+        if len(want) >= 2:
+            ck.seen(('phys', data))
+        try:
+            with U.time_limit(U.IMPL_TIME_LIMIT):
+                back = b._lmp_read_bmodels(chunks)
+            got = [(k, [bytes(x) for x in back[e]._phys_solids], back[e].phys_keyvalues.serialise().encode('ascii'))
+                   for k, e in enumerate(ents) if back[e]._phys_solids or back[e].phys_keyvalues is not None]
+        except Exception as exc:   # noqa: BLE001
+            got = None
+            err = f'{type(exc).__name__}: {exc}'[:200]
+        if got != want:
+            ck.violation('bmodels:physcollide:' + ('unreadable' if got is None else 'content'),
+                         f'physics blocks written by _lmp_write_bmodels are read back {"with " + err if got is None else "differently"}: wrote '
+                         f'{[(k, [len(x) for x in ss], t) for k, ss, t in want]!r:.300}' + ('' if got is None else f', read {[(k, [len(x) for x in ss], t) for k, ss, t in got]!r:.300}'),
+                         {'blocks': [[k, [list(x) for x in ss], t.decode('ascii')] for k, ss, t in want], 'lump': list(data),
+                          'how': 'checks/c11.py corr_phys: one BModel per entity with these solids / keyvalues; _lmp_write_bmodels; _lmp_read_bmodels'})
+        else:
+            rc.append(f'({nlist(data)}, {lit(got)})')
+            ck.count('physcollide_read_cases')
+    ck.sample({'physcollide_case(blocks (model index, solids, text), lump bytes)': wc[min(3, len(wc) - 1)][:400]})
+    b1, b2 = yield [('chk_phys_w', 'list (Z * list (list N) * list N) * list N', wc, 'phys_w', IMPORTS_GLUE, PRE_PHYS),
+                    ('chk_phys_r', 'list N * list (Z * list (list N) * list N)', rc, 'phys_r', IMPORTS_GLUE, PRE_PHYS)]
+    if b1 is None or b2 is None:
+        ck.obligation('correspondence:physcollide', False, 'model could not be evaluated')
+        ck.tie_broken.append('correspondence PHYSCOLLIDE: model evaluation failed')
+        return
+    ck.obligation('correspondence:physcollide', not b1 and not b2,
+                  f'{len(wc)} lists of brush models with physics data (0-3 solids of 0-300 bytes, keyvalues text or none): Fmt/BspPhys.v write_blocks '
+                  f'configured from the source vs the PHYSCOLLIDE lump of _lmp_write_bmodels, byte for byte; {len(rc)} lumps read: read_blocks vs '
+                  f'_lmp_read_bmodels (index, solids, text): {len(b1)} + {len(b2)} disagreements')
+    if b1 or b2:
+        ck.tie_broken.append('correspondence PHYSCOLLIDE model vs bsp.py')
+        ck.extra['phys_disagreement'] = {'write': [wc[i][:500] for i in b1[:2]], 'read': [rc[i][:500] for i in b2[:2]]}
 
 
 # ------------------------------------------------------------------------------------------------ find_or_* correspondence
@@ -666,9 +957,9 @@ def corr_find(ck: Ck) -> None:
         if any(lst3[ix] != k_ for k_, ix in zip(reqs, idx3)):
             ck.seen(('dd', tuple(init), tuple(reqs)))      # non-trivial: some request was answered with ANOTHER record of equal key
     ck.sample({'find_or_extend_case(initial, requests, (final table, indexes))': fe[1][:300]})
-    b1 = _eval_cases(ck, 'chk_fi', 'list N * list N * (list N * list nat)', fi, 'fi')
-    b2 = _eval_cases(ck, 'chk_fe', 'list N * list (list N) * (list N * list nat)', fe, 'fe')
-    b3 = _eval_cases(ck, 'chk_dd', 'list (N * N) * list (N * N) * (list (N * N) * list nat)', dd, 'dd')
+    b1, b2, b3 = yield [('chk_fi', 'list N * list N * (list N * list nat)', fi, 'fi', None, None),
+                        ('chk_fe', 'list N * list (list N) * (list N * list nat)', fe, 'fe', None, None),
+                        ('chk_dd', 'list (N * N) * list (N * N) * (list (N * N) * list nat)', dd, 'dd', None, None)]
     if b3 is None:
         b1 = None
     else:
@@ -720,8 +1011,8 @@ def shrink(base: str, wd: str, g: U.Gen, view: str) -> U.Gen:
 
 
 def search(ck: Ck, base: str, wd: str) -> None:
-    n = ck.budget(560, 14000)
-    feats_all = [f for f in U.FEATURES if f not in ('big_runs', 'many')]
+    n = ck.budget(448, 11000)
+    feats_all = [f for f in U.FEATURES if f not in ('big_runs', 'many', 'resave')]
     found: dict[str, tuple] = {}
     rng = ck.rng
     for i in range(n):
@@ -732,10 +1023,17 @@ def search(ck: Ck, base: str, wd: str) -> None:
             feats.add('many')
         if i % 331 == 7:
             feats.add('big_runs')
+        if i % 5 == 3:
+            feats.add('resave')     # the re-read objects are changed in place and the same BSP object is saved a second time
         g = U.Gen(rng.getrandbits(40), cfg, pv, feats, rng.choice([2, 4, 4, 7]))
         if i < 2 * len(U.CONFIGS):
             # directed: distinct objects that agree in part of their attributes, alone, in every layout (2 worlds each)
             g = U.Gen(g.seed, cfg, pv, {'near_duplicates'}, 3)
+            feats = set(g.feats)
+        elif i < 4 * len(U.CONFIGS):
+            # directed: objects reachable only through references (sub-trees of new nodes, new leafs, faces, original faces, brushes,
+            # sides, planes, texinfo, texdata below listed objects), alone, in every layout (2 worlds each)
+            g = U.Gen(g.seed, cfg, pv, {'grafted', 'resave'} if i >= 3 * len(U.CONFIGS) else {'grafted'}, 3)
             feats = set(g.feats)
         res = U.roundtrip(base, wd, g)
         ck.count('worlds_saved_and_reread')
@@ -844,26 +1142,39 @@ def reject_probes(ck: Ck, base: str, wd: str) -> None:
         expect = U.canon_views(w, lambda n: w[n], g.vit, ver)
         path = os.path.join(wd, 'probe.bsp')
         shutil.copy(base, path)
-        b = B.BSP(path)
-        U.apply_config(b, cfg)
-        b.static_prop_version = ver
-        b.game_lumps[b'sprp'].version = ver.version
-        b.out_comma_sep = w['out_comma_sep']
-        for v in ['ents'] + [v for v in U.VIEWS if v != 'ents']:
-            if not (v == 'bmodels' and w[v] is None):
-                setattr(b, v, w[v])
         try:
-            with contextlib.redirect_stdout(io.StringIO()):
+            b = B.BSP(path)
+            U.apply_config(b, cfg)
+            b.static_prop_version = ver
+            b.game_lumps[b'sprp'].version = ver.version
+            b.out_comma_sep = w['out_comma_sep']
+        except Exception as e:      # noqa: BLE001 - the base file was read and checked a moment ago: opening a copy of it must work
+            ck.violation('base-file:reopen', f'a copy of the base file cannot be opened: {type(e).__name__}: {e}'[:300],
+                         {'probe': key, 'how': 'shutil.copy(base, path); BSP(path)', 'error': f'{type(e).__name__}: {e}'[:300]})
+            return
+        try:
+            with contextlib.redirect_stdout(io.StringIO()), U.time_limit(U.IMPL_TIME_LIMIT):
+                # (a validator that refuses the value when the view is assigned is a rejection as well)
+                for v in ['ents'] + [v for v in U.VIEWS if v != 'ents']:
+                    if not (v == 'bmodels' and w[v] is None):
+                        setattr(b, v, w[v])
                 b.save(path)
+        except U.ImplTimeout as e:
+            ck.hist('rejection_outcome', 'HANG')
+            ck.violation('hang:no-reject:' + key, f'save() of a world with a value that does not fit did not return: {e}',
+                         {'probe': key, 'cfg': cfg, 'prop_ver': pv, 'seed': g.seed, 'feats': sorted(feats),
+                          'how': 'checks/c11.py reject_probes: build Gen(seed,...), apply the named mutation, assign all views, save'})
+            continue
         except Exception:   # noqa: BLE001
             ck.hist('rejection_outcome', 'rejected-on-save')
             ck.seen(('reject', key))
             continue
         # accepted: then it must come back unchanged
         try:
-            b2 = B.BSP(path, {'l4d2': B.GameVersion.L4D2, 'vitamin': B.GameVersion.VITAMINSOURCE}.get(cfg))
-            b2.static_prop_version = ver
-            got = U.canon_views(b2, lambda n: None if (n == 'bmodels' and w['bmodels'] is None) else getattr(b2, n), g.vit, ver)
+            with U.time_limit(U.IMPL_TIME_LIMIT):
+                b2 = B.BSP(path, {'l4d2': B.GameVersion.L4D2, 'vitamin': B.GameVersion.VITAMINSOURCE}.get(cfg))
+                b2.static_prop_version = ver
+                got = U.canon_views(b2, lambda n: None if (n == 'bmodels' and w['bmodels'] is None) else getattr(b2, n), g.vit, ver)
             diffs = {}
             for v in need + (['orig_faces'] if 'faces' in need else []):
                 a, c = expect[v], got[v]
@@ -872,7 +1183,7 @@ def reject_probes(ck: Ck, base: str, wd: str) -> None:
                 d = U.first_diff(a, c, v)
                 if d:
                     diffs[v] = d
-        except Exception as e:   # noqa: BLE001
+        except (Exception, U.ImplTimeout) as e:   # noqa: BLE001
             diffs = {'!read': f'{type(e).__name__}: {e}'[:200]}
         if view_is_water_only(diffs):
             diffs = {}
@@ -927,6 +1238,25 @@ def coq_strs(xs: list[str]) -> str:
     return out
 
 
+def guarded(ck: Ck, stage: str, fn: Any, *args: Any) -> None:
+    """Run a stage of the oracle.  Calls into the implementation are wrapped where a well-formed input may legitimately fail; an
+    exception that still escapes and was raised INSIDE the implementation (innermost frame in srctools) is a failing input of that
+    stage, reported with its call stack - not an internal error of the check.  Exceptions of the check's own code are re-raised."""
+    try:
+        fn(*args)
+    except Exception as e:      # noqa: BLE001
+        tb = __import__('traceback').extract_tb(e.__traceback__)
+        if not tb or '/srctools/' not in tb[-1].filename:
+            raise
+        ck.violation('crash:' + stage, f'{type(e).__name__}: {e} raised inside the implementation during {stage}'[:300],
+                     {'stage': stage, 'error': f'{type(e).__name__}: {e}'[:300], 'how': f'checks/c11.py {stage}: run the check',
+                      'stack': [f'{f.filename.split("/")[-1]}:{f.lineno} {f.name}' for f in tb][-8:]})
+    except U.ImplTimeout as e:
+        ck.violation('hang:' + stage, f'a call into the implementation during {stage} did not return: {e}',
+                     {'stage': stage, 'how': f'checks/c11.py {stage}: run the check',
+                      'stack': [f'{f.filename.split("/")[-1]}:{f.lineno} {f.name}' for f in __import__('traceback').extract_tb(e.__traceback__)][-8:]})
+
+
 def glue_obligations(glue: dict) -> dict[str, str]:
     obs = {
         'vis_row_size_reader_is_ceil8': 'rowsize_ok vis_row_reader',
@@ -974,6 +1304,23 @@ def glue_obligations(glue: dict) -> dict[str, str]:
         obs[f'bool_code_agrees:{c}.{f}'] = ('forallb (fun x : string * string * N * N * N => let \'(c, f, wt, wf, rc) := x in '
                                            'negb (String.eqb c "%s" && String.eqb f "%s") || bool_code_ok (wt, wf, rc)) bool_codes' % (c, f))
     obs['bool_codes_found'] = 'negb (Nat.eqb (List.length bool_codes) 0)'
+    # every loop that serialises a local index table (nodes, brush sides, edges, brush models, model / sprite dictionaries) reaches
+    # the entries its own body appends, and nothing is appended after it
+    for f, t, _k, _i, _a in glue.get('worklists', []):
+        obs[f'index_table_loop_reaches_every_entry:{f}:{t}'] = f'wl_named worklists "{f}" "{t}"'
+    # the PHYSCOLLIDE block: both sides use one order of the four header values, one sentinel, the sections in one order
+    obs['phys_block_layout_agrees'] = 'phys_cfg_ok phys_config'
+    obs['phys_header_is_four_int32'] = 'match parse_fmt phys_header_fmt with Some f => fmt_eqb f hdr_fmt | None => false end'
+    # the offset table of the visibility lump: every slot is reserved where it is deferred (write=True), filled in (write()) before
+    # the buffer is returned, and no slot is deferred twice (one key per cluster)
+    obs['vis_offset_slots_reserved_and_filled'] = 'vis_deferred_usage_ok'
+    # the sprite dictionary of the detail props: every class that goes through it has the same attribute component in every slot on both sides
+    for c in glue.get('sprite_dict', {}):
+        obs[f'sprite_dictionary_fields_agree:{c}'] = ('forallb (fun e : sprite_entry => negb (String.eqb (fst (fst e)) "%s") || '
+                                                     'sprite_entry_ok (fst sprite_dict_fmts) (snd sprite_dict_fmts) e) sprite_dict' % c)
+    obs['sprite_dictionary_found'] = 'sprite_dict_ok sprite_dict_fmts sprite_dict'
+    obs['index_table_loops_found'] = 'negb (Nat.eqb (List.length worklists) 0)'
+    obs['rebuild_order_runs_appending_writers_first'] = 'order_ok rebuild_order append_edges'
     return obs
 
 
@@ -986,7 +1333,11 @@ def run(ck: Ck) -> None:
                'non-trivial = more than one distinct index returned; rejection probes: one named out-of-field value each, non-trivial = rejected on save; '
                'texture tables: all 399 lists of <= 3 names of <= 2 letters over {A,B} + random lists built from prefixes/tails/concatenations of a '
                'pool, non-trivial = storage shared; entity lumps: 1-4 entities with keys/values/output fields over an alphabet with quote, backslash, '
-               'newline, tab, high byte, commas, non-trivial = lump contains a backslash; row sizes: every cluster count below the budget')
+               'newline, tab, high byte, commas, non-trivial = lump contains a backslash; row sizes: every cluster count below the budget; '
+               'physics blocks: 1-5 brush models with 0-3 solids of 0-300 bytes and keyvalues text or none, non-trivial = at least two blocks; '
+               'DeferredWrites: sequences of write / defer / set_data calls over 4 keys (keys deferred twice, slots never set, keys never '
+               'deferred included), non-trivial = at least two slots and a file results; worlds with the feature grafted contain objects '
+               'reachable only through references (depth >= 2), worlds with resave are changed in place after the re-read and saved again')
     ck.trusted.append('hand-written models Bin/Struct.v, Bin/RLE.v, Bin/FindInsert.v, Fmt/BspTexStrings.v, Fmt/BspEntLump.v (+ Fmt/VmfText.hs) '
                       '(tied by byte-exact correspondence on every run)')
     ck.trusted.append('translate/c11_records.py: name-based data-flow analysis that labels every struct slot with the attributes it carries; '
@@ -998,6 +1349,9 @@ def run(ck: Ck) -> None:
                       'past pure assignments to other names only')
     ck.trusted.append('translate/c11_dedup.py ADMITTED (texture names pairwise distinct after casefold), translate/c11_overlayrec.py REDUNDANT '
                       '(Overlay.face_count = len(faces)), models Fmt/BspDedup.v, Fmt/BspFlagSplit.v, Fmt/BspOverlayRec.v')
+    ck.trusted.append('hand models Fmt/BspWorklist.v (Python list iteration over a growing list = position compared with the current length on '
+                      'every step), Fmt/BspPhys.v, Bin/BspDeferred.v (DeferredWrites over a file that is only appended to before the final pass); '
+                      'translate/c11_worklist.py (which loops walk a finder table, position-based inside/after classification), c11_phys.py')
     ck.assumptions.append('x86-64 little-endian host: the few native-order formats of bsp.py (i, ii, fff) are identified with their "<" forms; '
                           'the model accepts native formats only when all fields are numbers of one size (no alignment padding possible)')
     ck.assumptions.append('math.ceil(n / 8) is modelled as the exact rational ceiling (CPython float division by 8 is exact for n < 2^53)')
@@ -1017,9 +1371,34 @@ def run(ck: Ck) -> None:
     side = ck.extra.get('translated', {}).get('BspFormats_gen', {})
     ok_g = ck.translate('BspGlue_gen', c11_glue.translate)
     glue = ck.extra.get('translated', {}).get('BspGlue_gen', {})
+    # ck.build() runs the hygiene scan of all .v files (10 s of pure Python) the first time it is called; it is run here instead, once,
+    # in a thread next to the coqc processes that print the assumptions and discharge the instance obligations
+    ck._hygiene_done = True
     built = ok_t and ok_g and ck.build(['Props/C11.vo', 'Gen/BspFormats_gen.vo', 'Gen/BspGlue_gen.vo'])
+    from concurrent.futures import ThreadPoolExecutor
+    pool = ThreadPoolExecutor(max_workers=4)
+    # (a process of its own: the scan is pure Python and would otherwise share the interpreter lock with the rest of the check)
+    import subprocess
+    import sys
+    hyg = subprocess.Popen([sys.executable, '-c', 'import json; from harness.common import scan_hygiene; print("HYGIENE-RESULT " + json.dumps(scan_hygiene()))'],
+                           stdout=subprocess.PIPE, stderr=subprocess.DEVNULL, text=True)
+
+    def hygiene_result() -> None:
+        import json
+        try:
+            out, _ = hyg.communicate(timeout=900)
+            line = [x for x in out.splitlines() if x.startswith('HYGIENE-RESULT ')][-1]
+            bad = json.loads(line[len('HYGIENE-RESULT '):])
+        except Exception:   # noqa: BLE001 - the helper process did not deliver: scan in this process
+            hyg.kill()
+            ck.hygiene()
+            return
+        ck.obligation('hygiene:no_admitted_axiom_parameter_or_unchecked_flag', not bad,
+                      'all .v files scanned (comments removed): none found' if not bad else '; '.join(bad[:20]))
+        if bad:
+            ck.tie_broken.append('hygiene: ' + '; '.join(bad[:5]))
     if built:
-        ck.theorems('Props/C11.v')
+        fut_thm = pool.submit(theorems_parallel, ck, 'Props/C11.v', 8)
         obs: dict[str, str] = {}
         for name, _appl, _r, _w in c11_formats.STREAMS:
             obs[f'lump_formats_agree:{name}'] = f'stream_ok_named layouts streams "{name}"'
@@ -1042,40 +1421,65 @@ def run(ck: Ck) -> None:
         obs['five_layout_tables'] = 'Nat.eqb (List.length layouts) 5'
         obs['every_format_string_is_in_the_modelled_language'] = (
             'forallb (fun l => forallb (fun kv => fmt_known (snd kv)) (snd l)) layouts')
-        lap('translate+build+assumptions')
-        ck.instance_obligations(IMPORTS, obs)
-        lap('instance_obligations')
+        lap('translate+build')
+        fut_o1 = pool.submit(ck.instance_obligations, IMPORTS, obs)
         gobs = glue_obligations(glue)
         res = ck.instance_obligations(IMPORTS_GLUE, gobs, name='glue')
         if not res.get('vis_row_size_reader_is_ceil8', True) or not res.get('vis_row_size_writer_is_ceil8', True):
             w = ck.coq_eval(IMPORTS_GLUE, ['rowsize_witnesses vis_row_reader', 'rowsize_witnesses vis_row_writer'], name='row_wit')
             ck.extra['vis_row_size_wrong_for_cluster_counts(reader, writer; below 64)'] = w
-        lap('glue_obligations')
-        corr_struct(ck, side)
-        lap('corr_struct')
-        corr_rowsize(ck)
-        lap('corr_rowsize')
-        corr_rle(ck)
-        lap('corr_rle')
-        corr_find(ck)
-        lap('corr_find')
-    base = str(ck.scratch / 'base.bsp')
-    U.make_base(str(REPO / 'tests' / 'test_vec' / 'rot_main.bsp'), base)
+        fut_o1.result()
+        fut_thm.result()
+        lap('instance_obligations+assumptions')
+    pool.shutdown(wait=True)
+    base: str | None = str(ck.scratch / 'base.bsp')
+    try:
+        with U.time_limit(U.IMPL_TIME_LIMIT_BIG):
+            U.make_base(str(REPO / 'tests' / 'test_vec' / 'rot_main.bsp'), base)
+    except (Exception, U.ImplTimeout) as e:      # noqa: BLE001
+        # the repository's own test map cannot be read and saved any more: no world can be generated, and this is a failing input.
+        # The correspondences that do not need a file still run (they may show which layer broke).
+        ck.violation('base-file:read-or-save', f'the test map tests/test_vec/rot_main.bsp cannot be read, given an empty entity lump, saved and read again: '
+                                               f'{type(e).__name__}: {e}'[:300],
+                     {'how': 'harness.c11_util.make_base(<repo>/tests/test_vec/rot_main.bsp, <scratch>/base.bsp)', 'error': f'{type(e).__name__}: {e}'[:300]})
+        base = None
     wd = str(ck.scratch)
+    ex = pending = None
+    ties_before = len(ck.tie_broken)
     if built:
-        corr_tex(ck, base)
-        lap('corr_tex')
-        corr_ent(ck)
-        lap('corr_ent')
-    reject_probes(ck, base, wd)
-    high_precision_delay_probe(ck, base, wd)
-    lap('reject_probes')
-    search(ck, base, wd)
-    lap('search')
+        gens = [corr_struct(ck, side), corr_rowsize(ck), corr_rle(ck), corr_find(ck), corr_ent(ck), corr_deferred(ck)]
+        if base is not None:
+            gens += [corr_tex(ck, base), corr_phys(ck, base)]
+        ex, pending = start_correspondences(ck, gens)
+        lap('correspondence_cases')
+    try:
+        # the coqc runs of the correspondences go on in the background while the implementation is searched
+        if base is not None:
+            guarded(ck, 'reject_probes', reject_probes, ck, base, wd)
+            guarded(ck, 'output_delay_probe', high_precision_delay_probe, ck, base, wd)
+            lap('reject_probes')
+            guarded(ck, 'search', search, ck, base, wd)
+            lap('search')
+    finally:
+        hygiene_result()        # (a hit breaks a tie: the search is then repeated with the escalated budget, below)
+        if ex is not None:
+            finish_correspondences(ex, pending)
+        lap('hygiene+correspondence_results')
+    if base is None:
+        for pref in ('instance:', 'correspondence:', 'translate:', 'build:'):
+            ck.explain(pref)
+        return
+    if len(ck.tie_broken) > ties_before and not ck.violations and not ck.thorough:
+        # a correspondence broke after the search had started with the small budget and nothing concrete was found: search again
+        # with the escalated budget (ck.budget now returns the thorough size)
+        guarded(ck, 'search', search, ck, base, wd)
+        lap('search_escalated')
     # A failed obligation is explained by a concrete violation found on the implementation.
     keys = {v['key'] for v in ck.violations}
     if any(k.startswith('detail_props') for k in keys):
         ck.explain('instance:detail_kind_dispatch')
+    if any(k.startswith('visibility') or k.startswith('no-reject:visibility') or k.startswith('!') for k in keys):
+        ck.explain('correspondence:deferred_writes')
     if any(k.startswith('visibility') or k.startswith('no-reject:visibility') for k in keys):
         ck.explain('correspondence:rle')
         ck.explain('correspondence:vis_row_size')
@@ -1086,6 +1490,9 @@ def run(ck: Ck) -> None:
     if any(k.startswith('textures') or k.startswith('texinfo') for k in keys):
         ck.explain('instance:texdata_')
         ck.explain('correspondence:texdata_strings')
+    if any(k.startswith('bmodels') or k.startswith('!') for k in keys):
+        ck.explain('instance:phys_')
+        ck.explain('correspondence:physcollide')
     if any(k.startswith('find_or_extend') or 'tail_overlap' in k or 'shared_objects' in k for k in keys):
         ck.explain('instance:find_or_extend_checks_bounds')
         ck.explain('correspondence:find')
@@ -1123,6 +1530,8 @@ def run(ck: Ck) -> None:
             ck.explain(nm)
         if nm.startswith('instance:helper_property_split_agrees:StaticPropFlags') and hit_views & {'props', 'no-reject', '!any'}:
             ck.explain(nm)
+        if nm.startswith('instance:sprite_dictionary_') and hit_views & {'detail_props', '!any'}:
+            ck.explain(nm)
         if nm.startswith('instance:bool_code_agrees:DetailProp') and hit_views & {'detail_props', '!any'}:
             ck.explain(nm)
         if nm.startswith('instance:dedup_key_determines_record:'):
@@ -1131,6 +1540,29 @@ def run(ck: Ck) -> None:
                                                         ('hdr_faces', ['hdr_faces']), ('props', ['props'])]:
                 if st.startswith(pref) and (hit_views & set(views) or '!any' in hit_views):
                     ck.explain(nm)
+        if nm.startswith('translate:'):
+            # a translator that fails closed names the function whose shape it did not recognise: a concrete mismatch of the view that
+            # function reads / writes (or a save / re-read that fails altogether) explains it
+            import re
+            for m in re.finditer(r'_lmp_(?:write|read)_(\w+)|(_write_faces_common|_read_faces_common)|\b(save)\(\)', o.get('detail', '')):
+                st = m.group(1) or ('faces' if m.group(2) else '')
+                if m.group(3) and hit_views:
+                    ck.explain(nm)
+                for pref, views in list(view_of.items()) + [('props', ['props']), ('detail_props', ['detail_props']), ('visleafs', ['visleafs']),
+                                                            ('water_leaf_info', ['water_leaf_info']), ('visibility', ['visibility']),
+                                                            ('ents', ['ents']), ('textures', ['textures', 'texinfo'])]:
+                    if st and st.startswith(pref) and (hit_views & set(views) or hit_views & {'!any', '!read', '!save'}):
+                        ck.explain(nm)
+        if nm.startswith('instance:index_table_loop_reaches_every_entry:'):
+            # a loop that does not reach the entries appended to its table: objects met only through references get an index but no
+            # record - the re-read fails (index past the end of the lump) or the view of the writer / of a referring lump differs
+            st = nm.split(':')[2].replace('_lmp_write_', '').replace('_write_', '')
+            for pref, views in list(view_of.items()) + [('props', ['props']), ('detail_props', ['detail_props'])]:
+                if st.startswith(pref) and (hit_views & set(views) or hit_views & {'!any', '!read', '!save'}):
+                    ck.explain(nm)
+        if nm.startswith('instance:rebuild_order_runs_appending_writers_first') and (hit_views & {'!any', '!read', '!save'} or any(
+                'grafted' in k or 'fresh_objects' in k or 'tail_overlap' in k for k in keys)):
+            ck.explain(nm)
         if nm.startswith('instance:lump_formats_agree:') or nm.startswith('instance:record_fields_agree:'):
             st = nm.split(':', 2)[2]
             for pref, views in view_of.items():
@@ -1185,6 +1617,40 @@ def replay(data: dict) -> int:
             except Exception as e:   # noqa: BLE001
                 print('lump', bytes(r['lump']), 'is read with', type(e).__name__, e)
             return 1
+        if 'blocks' in r:
+            from weakref import WeakKeyDictionary
+
+            import srctools.bsp as B
+            from srctools.keyvalues import Keyvalues
+            from srctools.math import Vec
+            from srctools.vmf import VMF, Entity
+            b = B.BSP(base)
+            vmf = VMF()
+            vmf.spawn['classname'] = 'worldspawn'
+            n_models = max([k for k, _, _ in r['blocks']] + [0]) + 1
+            ents = [vmf.spawn]
+            for _ in range(n_models - 1):
+                e = Entity(vmf, {'classname': 'func_brush'})
+                vmf.add_ent(e)
+                ents.append(e)
+            bm: Any = WeakKeyDictionary()
+            for k, e in enumerate(ents):
+                bm[e] = B.BModel(Vec(), Vec(), Vec(), b.nodes[0], [])
+            for k, ss, t in r['blocks']:
+                bm[ents[k]]._phys_solids = [bytes(x) for x in ss]
+                bm[ents[k]].phys_keyvalues = Keyvalues.parse(t) if t else None
+            b.ents = vmf
+            chunks = b''.join(b._lmp_write_bmodels(bm))
+            print('PHYSCOLLIDE lump written:', b.lumps[B.BSP_LUMPS.PHYSCOLLIDE].data)
+            try:
+                back = b._lmp_read_bmodels(chunks)
+                got = [[k, [list(x) for x in back[e]._phys_solids], back[e].phys_keyvalues.serialise()] for k, e in enumerate(ents)
+                       if back[e]._phys_solids or back[e].phys_keyvalues is not None]
+            except Exception as e:   # noqa: BLE001
+                print('read back with', type(e).__name__, e)
+                return 1
+            print('wrote', r['blocks'], 'read', got)
+            return 1 if got != r['blocks'] else 0
         if 'requests' in r:
             from srctools.binformat import find_or_extend
             lst = list(r['initial'])
